@@ -88,6 +88,10 @@ MUTATIONS += [
     ('Cython/Compiler/Nodes.py', "ReturnStatNode: event only under directives['profile']", 'C45-RETCOND ...:no-event-when:always (configuration linetrace)'),
 ]
 # Fourth round: 26 breaking edits and 12 behaviour-preserving rewrites are kept as replayable patches under /verif/mutants/C45/<name>/ (see each meta.json).
+# Sixth round (session I2, seed C45h): C45-BRACKET (sa/rules/s4C45.py).  9 breaking edits of the tracing guard (Leave on the success branch only / dropped / early return /
+# second Enter in one #if variant / Enter behind a callback / Enter and Leave exchanged / Leave macro of one version variant without the decrement, storing the entering
+# constant, or forwarding to the entering API) and 5 behaviour-preserving rewrites (Leave in both branches, goto-cleanup, wrapper helpers, callbacks in a helper, macros renamed)
+# are kept under /verif/mutants/C45/h-* and p6-*.
 SILENT_EDITS = [   # behaviour-preserving, no new violation
     'ReturnStatNode: `tracing_on = profile or linetrace; if not (self.in_parallel or not tracing_on):` (De Morgan + local)  [C45-RETCOND]',
     'ReturnStatNode: `par = self.in_parallel; if par: pass / elif code.is_tracing():`  [C45-RETCOND]',
